@@ -26,6 +26,9 @@ structure Cfg where
   fuaMin : Nat
   /-- `depacketizeFuA`: a non-start fragment arriving with an empty fragment buffer is dropped -/
   fuaNeedsStart : Bool
+  /-- `depacketizeFuA` rebuilds the NAL header from F and NRI of the FU indicator
+      (`header & 0xE0`); before the repair the F bit was dropped (`header & 0x60`) -/
+  fuaKeepsF : Bool
   /-- h265 `Depacketize`: `if len(payload) < h265Min { return }` -/
   h265Min : Nat
   /-- `depacketizeStap` (H.265 AP): bounds checks as for STAP-A -/
@@ -187,7 +190,7 @@ def h264FuA (cfg : Cfg) (spsOk : Bytes → Bool) (st : VSt) (p : Pkt) : Res VSt 
         let frags := frags ++ [p]
         if (fuh >>> (6 : UInt8)) &&& 1 = 1 then
           h264WriteFrame cfg spsOk { st with frags := [] } p.ts
-            (((ind &&& 0x60) ||| (fuh &&& 0x1f)) :: fuaJoin frags)
+            (((ind &&& (if cfg.fuaKeepsF then 0xe0 else 0x60)) ||| (fuh &&& 0x1f)) :: fuaJoin frags)
         else ⟨{ st with frags := frags }, [], .ok⟩
   | _ => ⟨st, [], .panic⟩                         -- payload[0] / payload[1]
 
